@@ -1081,3 +1081,17 @@ def run(ctx):
     r01_15(ctx, p)
     r01_16(ctx, p)
     r01_17(ctx, p)
+    ctx.rule("R01.19", "get_all_trials hands the trials back in trial-number order on every backend: the two dict-backed caches sort by number, the RDB query orders by trial id")
+    from rules.c08 import sorted_by_number
+    for q in ("optuna.storages._cached_storage._CachedStorage", "optuna.storages._grpc.client.GrpcClientCache"):
+        sorted_by_number(ctx, "R01.19", p.cls(q))
+    gt = p.func(RDB + "._get_trials")
+    runs_ = [c for c in own_nodes(gt.node) if isinstance(c, ast.Call) and isinstance(c.func, ast.Attribute) and c.func.attr == "all" and "TrialModel" in norm(c)]
+    ctx.require(runs_, "R01.19: RDBStorage._get_trials no longer runs a TrialModel query")
+    for c in runs_:
+        ctx.check(".order_by(models.TrialModel.trial_id)" in norm(c) or ".order_by(models.TrialModel.number)" in norm(c), "R01.19", gt.short, "rdb-query-ordered",
+                  message=f"RDBStorage._get_trials runs `{norm(c)[:70]}` without ordering by trial id: the database may return rows in any order, the other backends "
+                          f"return number order", how=".order_by(models.TrialModel.trial_id)", where=where(gt, c))
+    ctx.rule("R01.18", "an id names exactly one object: JournalStorage.create_new_study returns the id of the study found by the name its own record carried")
+    from rules.c03 import create_study_returns_named
+    create_study_returns_named(ctx, "R01.18")
